@@ -519,6 +519,40 @@ func checkC13(c *Ctx) {
 		rd.Check(ok && bad == 0, f.Name(), "closure reports the hook invocation", where, "returns true on every path that invoked a hook", "a path through the hook closure invokes a hook but returns false: callMethod then dispatches per element as well and the hook fires twice for the same record")
 	}
 
+	// Save runs the update pipeline (with hooks) and falls back to an insert when no row matched: the
+	// fallback must not run a second round of hooks on the same record
+	{
+		save := p.MethodDecl(pkgGorm, "DB", "Save")
+		c.Touch(save)
+		info := save.Pkg.TypesInfo
+		dbT0 := p.Named(pkgGorm, "DB")
+		createM := p.Method(dbT0, "Create")
+		sessT0 := p.Named(pkgGorm, "Session")
+		accUpdate := p.Method(p.Named(pkgGorm, "callbacks"), "Update")
+		ranUpdate := false
+		for _, call := range callsIn(save) {
+			if fn, _ := typeutil.Callee(info, call).(*types.Func); fn == accUpdate {
+				ranUpdate = true
+			}
+		}
+		for _, call := range callsIn(save) {
+			if fn, _ := typeutil.Callee(info, call).(*types.Func); fn != createM || !ranUpdate {
+				continue
+			}
+			skips := false
+			for _, nd := range chainNodes(save, call) {
+				for _, lit := range litsOfType(info, nd, sessT0, false) {
+					if v := compositeField(lit, "SkipHooks"); v != nil {
+						if b, ok := constBool(info, v); ok && b {
+							skips = true
+						}
+					}
+				}
+			}
+			rd.Check(skips, save.Name(), "insert fallback after the update pipeline skips hooks", call.Pos(), "Session{SkipHooks: true}", "Save's insert fallback runs after the update pipeline has already run the hooks and does not skip them: BeforeSave/AfterSave fire twice for the same record (and a non-idempotent BeforeSave is applied twice)")
+		}
+	}
+
 	// ---- C13.skip ----
 	rk := c.Rule("C13.skip", "column-update finishers set SkipHooks before executing", 2)
 	stmtT := p.Named(pkgGorm, "Statement")
